@@ -106,7 +106,9 @@ TEXT_PAYLOAD = {'TRACE_STRING_NEWTHREAD', 'TRACE_STRING_EXEC', 'TRACE_STRING_PRO
                 'TRACE_STRING_THREADNAME_PREV', 'VFS_LOOKUP', 'TRACE_STRING_GLOBAL'}
 
 TEXTS = [b'launchd', b'/usr/lib/dyld', b'Safari', b'caf\xc3\xa9', b'', b'a', b'kernel_task', b'com.apple.main-thread',
-         b'\xe6\x97\xa5\xe6\x9c\xac\xe8\xaa\x9e', b'x' * 24, b'/private/var/db/file.plist']
+         b'\xe6\x97\xa5\xe6\x9c\xac\xe8\xaa\x9e', b'x' * 24, b'/private/var/db/file.plist',
+         b'a-name-that-fills-all-32-bytes!!', b'thirty-two-bytes-ending-in-\xc3\xa9\xc3\xa9z']      # the last two: exactly 32 bytes
+assert all(len(t) <= 32 for t in TEXTS)
 
 
 def text32(rng, maxlen=32):
